@@ -69,9 +69,15 @@ var (
 )
 
 type DnsControllerOption struct {
-	Log                   *logrus.Logger
-	LifecycleContext      context.Context
-	CacheAccessCallback   func(cache *DnsCache) (err error)
+	Log                 *logrus.Logger
+	LifecycleContext    context.Context
+	CacheAccessCallback func(cache *DnsCache) (err error)
+	// CacheRefreshCallback, when set, is used instead of CacheAccessCallback by
+	// the asynchronous BPF update worker. stillCurrent reports whether cache is
+	// still the published entry for its key and must be consulted atomically
+	// with the side effect, because the task may have been queued for an entry
+	// that has been replaced or removed since.
+	CacheRefreshCallback  func(cache *DnsCache, stillCurrent func() bool) (err error)
 	CacheRemoveCallback   func(cache *DnsCache) (err error)
 	CacheDeleteCallback   func(cacheKey string, cache *DnsCache) (err error)
 	NewCache              func(fqdn string, answers, ns, extra []dnsmessage.RR, deadline time.Time, originalDeadline time.Time) (cache *DnsCache, err error)
@@ -89,6 +95,7 @@ type dnsControllerRuntimeState struct {
 	routing               *dns.Dns
 	lifecycleCtx          context.Context
 	cacheAccessCallback   func(cache *DnsCache) (err error)
+	cacheRefreshCallback  func(cache *DnsCache, stillCurrent func() bool) (err error)
 	cacheRemoveCallback   func(cache *DnsCache) (err error)
 	cacheDeleteCallback   func(cacheKey string, cache *DnsCache) (err error)
 	newCache              func(fqdn string, answers, ns, extra []dnsmessage.RR, deadline time.Time, originalDeadline time.Time) (cache *DnsCache, err error)
@@ -417,6 +424,7 @@ func (c *DnsController) updateRuntime(option *DnsControllerOption, routing *dns.
 		routing:               routing,
 		lifecycleCtx:          lifecycleCtx,
 		cacheAccessCallback:   option.CacheAccessCallback,
+		cacheRefreshCallback:  option.CacheRefreshCallback,
 		cacheRemoveCallback:   option.CacheRemoveCallback,
 		cacheDeleteCallback:   option.CacheDeleteCallback,
 		newCache:              option.NewCache,
@@ -975,8 +983,22 @@ func (c *DnsController) processBpfUpdateTask(task *bpfUpdateTask, draining bool)
 		return false
 	}
 	verifYield("dns-bpf-update-task")
+	// The task may have waited in the queue while its entry was replaced,
+	// evicted or removed. Re-applying it would resurrect the routes of a dead
+	// entry (or overwrite those of its successor), so drop it.
+	stillCurrent := func() bool { return c.isPublishedDnsCache(task.cache) }
+	if !stillCurrent() {
+		return true
+	}
+	verifYield("dns-bpf-update-refresh")
 	if rt := c.runtime(); rt != nil && rt.cacheAccessCallback != nil {
-		if err := rt.cacheAccessCallback(task.cache); err != nil {
+		var err error
+		if rt.cacheRefreshCallback != nil {
+			err = rt.cacheRefreshCallback(task.cache, stillCurrent)
+		} else {
+			err = rt.cacheAccessCallback(task.cache)
+		}
+		if err != nil {
 			if c.log != nil {
 				suffix := ""
 				if draining {
@@ -989,6 +1011,21 @@ func (c *DnsController) processBpfUpdateTask(task *bpfUpdateTask, draining bool)
 		}
 	}
 	return true
+}
+
+// isPublishedDnsCache reports whether cache is still the entry stored under its
+// route owner key. Entries without an owner key are not tracked by key and are
+// always considered current.
+func (c *DnsController) isPublishedDnsCache(cache *DnsCache) bool {
+	if cache == nil || cache.RouteOwnerKey == "" {
+		return true
+	}
+	current, ok := c.dnsCache.Load(cache.RouteOwnerKey)
+	if !ok {
+		return false
+	}
+	published, ok := current.(*DnsCache)
+	return ok && published == cache
 }
 
 // bpfUpdateWorker processes BPF map updates asynchronously.
